@@ -10,7 +10,7 @@ import (
 	"github.com/opencontainers/go-digest"
 	"pgregory.net/rapid"
 
-	"verif/harness/internal/vt"
+	"verif/harness/vt"
 )
 
 // ConcScript: in immutable-tags mode several goroutines race to bind the
